@@ -21,15 +21,13 @@ LEVEL_TEXT = ('Unbounded Lean theorems: (a) ALL SIZES of the hand-modelled class
               'even >= 2 (wf of the derived qubit list, commutation, the 9x9 pairing table of strings and membranes; periodic '
               'wrap removed through centred differences, overlaps as kernel-evaluated finite functions; rank by instances), '
               'HollowRhombicCode Lx,Ly>=2, Lz>=3 (wf, commutation incl. the key-count selection rule of the triangle loop, '
-              'pairing for every size; rank clause: the decidable predicate Deficient - hole one layer thin in one direction '
-              'and >= 2 cells wide in the two others: Lx=3, Ly,Lz>=6; Ly=4, Lx>=5, Lz>=6; Lz=4, Lx>=5, Ly>=6 - is the exact set of '
-              'rank-deficient sizes (measured, Lx<=7, Ly,Lz<=9, n<=900); NEGATIVE theorem deficient_not_valid for EVERY '
-              'deficient size: an undeclared second logical pair exists, rank <= n-2, not a valid [[n,1]] code - the known '
-              'finding; POSITIVE theorems: the explicit family rankFamily is independent for EVERY size '
-              '(generators_independent) and has n-1 members for every size that is neither deficient nor in the gap '
-              'Lz=4, Lx>=4, Ly>=5, hence valid_code_partial = full ValidCodeL incl. rank there; outside the gap a size is '
-              'valid iff not Deficient; the non-deficient gap sizes (4,Ly>=5,4), (Lx>=5,5,4): instances/measured only): the '
-              'assembled matrices '
+              'pairing for every size; rank clause: EXACT CHARACTERISATION valid_iff_not_deficient - a size of the family is a '
+              'valid [[n,1]] code (rank n-1) iff it is not Deficient, the decidable predicate "hole one layer thin in one '
+              'direction and >= 2 cells wide in the two others": Lx=3, Ly,Lz>=6; Ly=4, Lx>=5, Lz>=6; Lz=4, Lx>=5, Ly>=6; '
+              'negative side deficient_not_valid for EVERY deficient size: an undeclared second logical pair, rank <= n-2, '
+              'not a valid code - the known finding; positive side valid_code for EVERY other size: the explicit family '
+              'rankFamily is independent for every size (triangular operator probes) and has n-1 members on every '
+              'non-deficient size (partition into boxes, checkerboard counts)): the assembled matrices '
               'exist and satisfy ValidCodeL n k (commutation, logical commutation, pairing table, GF(2) rank n-k) for every '
               'lattice size, with closed forms for n, k, stabilizers and get_deformation; (b) the executable validity checker '
               'is sound for every code; commutation+pairing force rank <= n-k for every code; every per-qubit permutation of '
@@ -161,7 +159,7 @@ def cases_for(ctx, deep):
     if deep:   # one member of each of the other two deficient families (predicate Deficient)
         cases.append({'class': 'HollowRhombicCode', 'size': [5, 4, 6], 'deform': [None, {}], 'large_hollow': True})
         cases.append({'class': 'HollowRhombicCode', 'size': [5, 6, 4], 'deform': [None, {}], 'large_hollow': True})
-    # non-deficient sizes with a hole beyond the table bound (thin, thick, gap): valid codes
+    # non-deficient sizes with a hole beyond the table bound (thin, thick, slab): valid codes (theorem valid_code)
     for s in ((3, 5, 5), (4, 5, 5), (4, 5, 4)) + (((3, 5, 7), (4, 4, 7), (5, 5, 4), (4, 6, 5)) if deep else ()):
         cases.append({'class': 'HollowRhombicCode', 'size': list(s), 'deform': [None, {}]})
     return cases
